@@ -9,7 +9,7 @@ the judged calls; the values of that object are always exactly X.
 import numpy as np
 import pandas as pd
 
-HISTORIES = [None, None, "fit_other", "same_object", "inplace"]
+HISTORIES = [None, None, "fit_other", "same_object", "inplace", "reconfigured"]
 
 
 def pick(rng):
@@ -24,13 +24,48 @@ def _other(seed, n, p, like):
     return Z
 
 
-def prepare(det, X, hist, seed, nmin, frame=None):
+def _reconfigure(det, X, seed, wrap):
+    """The object is first built with other structural hyper-parameters (smaller minimum lengths, other
+    maximum lengths / growth factor), fitted and used on data of the same shape, and only then given
+    its real configuration through set_params: it must behave like a freshly built detector.
+    Returns the reconfigured (unfitted) object, or None when no such detour is possible."""
+    target = det.get_params(deep=False)
+    first = {}
+    rng = np.random.default_rng(seed)
+    for k in ("min_segment_length",):
+        if isinstance(target.get(k), (int, np.integer)) and target[k] > 1:
+            first[k] = max(1 + (k in target and "max_segment_length" in target), int(target[k]) - int(rng.integers(1, 4)))
+    for k in ("max_interval_length", "max_segment_length"):
+        if isinstance(target.get(k), (int, np.integer)):
+            first[k] = int(target[k]) + int(rng.integers(3, 40))
+    if isinstance(target.get("growth_factor"), (float, np.floating)):
+        first["growth_factor"] = float([1.2, 1.7, 2.0][int(rng.integers(3))])
+    first = {k: v for k, v in first.items() if v != target[k]}
+    if not first:
+        return None
+    try:
+        d0 = det.clone().set_params(**first)
+        other = wrap(_other(seed + 5, X.shape[0], X.shape[1], X))
+        d0.fit(other)
+        d0.predict(other)
+        d0.set_params(**{k: target[k] for k in first})
+    except Exception:  # the detour itself is not what is judged
+        return None
+    return d0
+
+
+def prepare(det, X, hist, seed, nmin, frame=None, wrap=None):
     """det: unfitted detector; X: (n,p) array; returns (fitted det, object holding X's values).
 
     frame: None -> ndarray container, "df" -> DataFrame container ("series" for p == 1 callers pass
     their own container through `wrap`)."""
     n, p = X.shape
-    wrap = (lambda a: pd.DataFrame(a)) if frame == "df" else (lambda a: a)
+    if wrap is None:
+        wrap = (lambda a: pd.DataFrame(a)) if frame == "df" else (lambda a: a)
+    if hist == "reconfigured":
+        d0 = _reconfigure(det, X, seed, wrap)
+        det = det if d0 is None else d0
+        hist = None
     if hist is None:
         obj = wrap(X.copy())
         det.fit(obj)
